@@ -47,6 +47,36 @@ def compact_plain(d):
     return {"n": k}
 
 
+def compact_node(n):
+    """mirror of CompactN: compact data of a projected node, user metadata included where present"""
+    k = n["k"]
+    kids = [[kstr(key), compact_node(c)] for key, c in n["ch"]]
+    if k in ("list", "append", "extend", "path", "stream"):
+        body = [c for _, c in kids]
+    elif k in ("call", "bind"):
+        body = {"c": k, "f": n["fn"], "d": kids}
+    elif k == "dict":
+        body = {"d": kids}
+    elif k == "scalar":
+        body = n["v"][0] + ":" + n["v"][1]
+    else:
+        body = {"n": k}
+    if n["md"]:
+        return {"m": sorted([name, a[0] + ":" + a[1]] for name, a in n["md"]), "x": body}
+    return body
+
+
+def norm_expected(x):
+    """TLC prints metadata sets in its own order: sort them"""
+    if isinstance(x, dict):
+        if "m" in x and "x" in x:
+            return {"m": sorted(x["m"]), "x": norm_expected(x["x"])}
+        return {k: norm_expected(v) for k, v in x.items()}
+    if isinstance(x, list):
+        return [norm_expected(v) for v in x]
+    return x
+
+
 def kstr(key):
     return key["t"] + ":" + (str(key["n"]) if key["t"] == "i" else key["s"])
 
@@ -75,7 +105,7 @@ def _prefix_outcome(idx, safes):
     docs = [_UNIVERSE[i - 1] for i in idx]
     try:
         t = drive.build_tree(docs, list(safes))
-        out = compact_plain(P.project_data(t))
+        out = compact_node(P.project(t))
     except Exception as e:  # noqa
         out = {"e": drive.errclass(e)}
     if len(_CACHE) > 20000:
@@ -92,7 +122,7 @@ def _replay_one(beh):
         got.append(o)
         if isinstance(o, dict) and "e" in o:
             break
-    return None if got == want else {"h": idx, "s": safes, "want": want, "got": got}
+    return None if got == norm_expected(want) else {"h": idx, "s": safes, "want": want, "got": got}
 
 
 def replay(universe, behaviours, nproc=16):
